@@ -73,6 +73,28 @@ def gen_case(rng):
     return {"op": "m2q", "spin": False, "kind": rng.choice(["list", "ndarray"]), "labels": list(range(n)), "terms": {}, "matrix": mat}
 
 
+def exhaustive_cases(polys):
+    """TLC-emitted universe x the four conversion functions (dict, labelled, own Matrix type) x enumeration methods and
+    convert_solution on the labelled kinds x exports"""
+    out = []
+    for p in polys:
+        for fn in sorted(CONV):
+            op, spin, quad, own, _, _ = CONV[fn]
+            lab = {"pubo_to_puso": "PCBO", "qubo_to_quso": "QUBO", "puso_to_pubo": "PCSO", "quso_to_qubo": "QUSO"}[fn]
+            for kind, labels in (("dict", [(1, 2), "a"]), (lab, ["x", 3]), (own, [0, 2])):
+                out.append({"op": op, "fn": fn, "spin": spin, "kind": kind, "labels": labels, "terms": pure.instantiate(p, labels)})
+        for spin, kind in ((False, "QUBO"), (True, "QUSO"), (False, "PUBO"), (True, "PCSO")):
+            labels = ["b", "a"]
+            terms = pure.instantiate(p, labels)
+            for meth in ("to_qubo", "to_quso", "to_pubo", "to_puso", "to_enumerated"):
+                out.append({"op": "enum", "method": meth, "spin": spin, "kind": kind, "labels": labels, "terms": dict(terms)})
+            if terms:
+                out.append({"op": "convsol", "spin": spin, "kind": kind, "labels": labels, "terms": dict(terms)})
+        out.append({"op": "Q", "spin": False, "kind": "QUBOMatrix", "labels": [0, 2], "terms": pure.instantiate(p, [0, 2])})
+        out.append({"op": "hJ", "spin": True, "kind": "QUSOMatrix", "labels": [0, 2], "terms": pure.instantiate(p, [0, 2])})
+    return out
+
+
 def run_case(case, cid):
     from qubovert import utils
     import numpy as np
@@ -191,6 +213,11 @@ def run(tier, out, replay=None):
     rng = common.rng_for(out.seed, "c04")
     try:
         cases = [gen_case(rng) for _ in range(20000 if tier == "thorough" else 3000)]
+        polys, udesc = pure.universe("2f" if tier == "thorough" else "2s", wd)
+        ex = exhaustive_cases(polys)
+        cases = ex + cases
+        out.set("exhaustive_universe", udesc)
+        out.set("exhaustive_cases", len(ex))
         for i, c in enumerate(cases):
             c["_index"] = i
         if replay:
